@@ -1,5 +1,5 @@
 SPECIFICATION Spec
-CONSTANTS NMsg = 3  MaxCnt = 4  MaxDeliv = 9  FixCount = TRUE  DupCheck = TRUE
+CONSTANTS NMsg = 3  MaxCnt = 4  MaxDeliv = 9  FreshPktID = TRUE  FixCount = TRUE  DupCheck = TRUE
   GridD <- GD  GridH <- GH  GridL <- GL
 INVARIANT NoViolation
 VIEW View
